@@ -18,4 +18,17 @@ PROPS = {
         "assumptions": ["golang.org/x/tools/txtar v0.26.0 is the reference definition on CR-free input",
                         "the reference parser (harness/txtarref) is cross-checked against x/tools on every CR-free case; a disagreement is reported as a harness error"],
     },
+    "C14": {
+        "pkg": "c14_quote",
+        "level": "exploration",
+        "technique": "small-scope exhaustive enumeration + rapid property tests + native fuzzing; two independent references for 'contains a marker line' and the Quote/Unquote inverse law",
+        "level_text": "Every byte string over the 6-letter marker alphabet up to length 9 (quick) / 11 (thorough), random near-marker bodies (CRLF, missing final newline, non-UTF-8) and a fuzz campaign: NeedsQuote must equal a line-scan reference and the observable effect on Parse(Format(.)); Quote results must invert, need no quoting and survive Format/Parse.",
+        "level_note": "Trusted: the line-scan definition of a marker line (harness/txtarref), cross-checked on every case against the parser effect under golang.org/x/tools/txtar (CR-free) or the reference parser.",
+        "shards": {"quick": 1, "thorough": 16},
+        "fuzz": [{"name": "FuzzBody", "seconds": 90}],
+        "rule": "bodies: every byte string over {'-',' ','x','\\n','\\r','>'} up to length 9 (quick) / 11 (thorough); rapid bodies of near-marker fragments with LF/CRLF/CR/missing final newline, Unicode spaces, invalid UTF-8; thorough: native fuzzing. "
+                "Oracle: NeedsQuote = line-scan reference R1 = (Parse(Format({f,body})) != [{f, body+NL}]); for accepted Quote: Unquote(Quote(d)) = d, quoted form has no marker line and survives Format/Parse. "
+                "Non-trivial: some line of the body begins with '-- ' or '>'; distinct by input bytes.",
+        "assumptions": ["Quote may refuse any input (the statement only constrains accepted inputs)"],
+    },
 }
